@@ -31,6 +31,7 @@ HOOK_COMMITS = [
     "d74f5a917363a9bc2d3a5d81e0e790775a0fb827",
     "c4459971472dd072f36422595d14d0accf522f97",
     "98eed37a9ece2b904c22e16ba539aeee0c9108c3",
+    "e083470ed97a47094fe9a3c95d90269a387547d6",
 ]
 
 LEVEL_NOTE_COMMON = (
@@ -226,8 +227,9 @@ PROPS = {
         "streams": [
             {"name": "tap", "mode": "tap", "quick": 500, "thorough": 12000, "args": []},
         ],
-        "relevant": panic_or({"infer", "minfer", "nogood", "bad"}, ["tap"]),
-        "level_text": "Proof: checkInference_iff — the acceptor for an explanation (premises -> conclusion, or -> false) is equivalent to semantic entailment from the single tagged constraint within the declared domains, hence sound AND complete (never rejects a valid explanation); accepted_propagation / accepted_conflict / never_prunes_solution / accepted_model_inference. Tie to code (hook: explanation tap): every propagation (reason computed immediately, lazy reasons included), every reported conflict, every reason handed to conflict analysis later (explicit, lazily recomputed, implicit) and every learned nogood during real searches is recorded with the propagator's tag and judged; 'all reason predicates hold in the state in which the reason is given' is evaluated inside the hook.",
+        "relevant": panic_or({"infer", "minfer", "nogood", "bad", "implicit"}, ["tap"]),
+        "lean_modules": ["Pumpkin.Model.ImplicitReason"],
+        "level_text": "Proof: implicit_reason_entails / implicit_reason_progress — Model/ImplicitReason.lean mirrors the nine arms (and assertion guards) of get_propagation_reason for predicates that are not literally on the trail; every reason it produces entails the explained predicate for ALL integer values and never contains it; tied exactly: the hook records the trail predicate next to each implicit reason and the model must produce the identical list. checkInference_iff — the acceptor for an explanation (premises -> conclusion, or -> false) is equivalent to semantic entailment from the single tagged constraint within the declared domains, hence sound AND complete (never rejects a valid explanation); accepted_propagation / accepted_conflict / never_prunes_solution / accepted_model_inference. Tie to code (hook: explanation tap): every propagation (reason computed immediately, lazy reasons included), every reported conflict, every reason handed to conflict analysis later (explicit, lazily recomputed, implicit) and every learned nogood during real searches is recorded with the propagator's tag and judged; 'all reason predicates hold in the state in which the reason is given' is evaluated inside the hook.",
         "level_note": LEVEL_NOTE_COMMON + "Enumeration limits trace acceptance to small domains; nogood-propagator reasons are judged against the whole model.",
     },
     "C19": {
